@@ -205,11 +205,9 @@ impl Oracle {
                     *self = Oracle::default();
                     return Some(self.dump());
                 }
-                let first = cells[0].0;
-                let last = cells[cells.len() - 1].0;
-                if cells.iter().any(|c| c.0 < first || c.0 > last) {
-                    return None; // outside the documented precondition
-                }
+                // any cell order (D40: the readers pass cells in file order): tight bounding box over ALL cells
+                let first = cells.iter().map(|c| c.0).min().unwrap();
+                let last = cells.iter().map(|c| c.0).max().unwrap();
                 let c0 = cells.iter().map(|c| c.1).min().unwrap();
                 let c1 = cells.iter().map(|c| c.1).max().unwrap();
                 self.rect = Some(((first, c0), (last, c1)));
@@ -251,7 +249,10 @@ fn sig_of(op: &Op, before: &Range<usize>) -> String {
         Op::R(..) => format!("R:{}", if before.is_empty() { "empty-src" } else { "src" }),
         Op::N(..) => "N".into(),
         Op::E => "E".into(),
-        Op::F(..) => "F".into(),
+        Op::F(cells) => {
+            let sorted = cells.windows(2).all(|w| w[0].0 <= w[1].0);
+            (if sorted { "F" } else { "F:unsorted" }).into()
+        }
     }
 }
 
@@ -353,7 +354,9 @@ fn area_after(r: &Range<usize>, op: &Op) -> u64 {
             }
             let c0 = cells.iter().map(|c| c.1).min().unwrap();
             let c1 = cells.iter().map(|c| c.1).max().unwrap();
-            span(cells[0].0, cells[cells.len() - 1].0).saturating_mul(span(c0, c1))
+            let r0 = cells.iter().map(|c| c.0).min().unwrap();
+            let r1 = cells.iter().map(|c| c.0).max().unwrap();
+            span(r0, r1).saturating_mul(span(c0, c1))
         }
     }
 }
@@ -460,6 +463,10 @@ fn corpus() -> Vec<&'static str> {
         "N,4294967290,4294967290,4294967292,4294967293;S,4294967294,4294967295,4;R,4294967289,4294967289,4294967295,4294967295",
         // from_sparse duplicates / last writer wins / zero values
         "F,3,7,1,3,7,2,4,2,0,5,9,4;S,5,9,0;R,3,2,5,9",
+        // D40: from_sparse on cells not sorted by row (a row above the first's panicked, a row below the last's was dropped)
+        "F,3,259,0,0,261,4",
+        "F,1,1,1,3,2,2,2,1,3;R,0,0,4,4",
+        "F,5,5,1,2,7,2,9,3,3,2,5,4",
         // documented panics
         "N,3,3,2,5;N,3,3,5,2;N,1,1,2,2;S,0,1,1;S,1,0,1",
     ]
